@@ -168,6 +168,7 @@ func stubBE(w int, put bool) stubFn {
 
 func havocRange(fr *Frame, reg, lo, hi Term) {
 	c := fr.c()
+	fr.checkLoopFrameRange("M", reg, lo, hi, fr.curInstr)
 	m := fr.cur.get("M")
 	old := app("select", m, reg)
 	na := c.fresh("hv.M", "(Array Int Int)")
@@ -208,6 +209,7 @@ func stubSyscall(fr *Frame, in ssa.Instruction, f *ssa.Function, cc *ssa.CallCom
 		c.assume(imp(eq(err, "0"), le(r1, args[3])))
 	}
 	if !isK || trap == 0 {
+		fr.loopFrameWholeComp("M", in, "read syscall")
 		// the kernel writes into the buffer: all byte memory reachable may change
 		fr.cur.set("M", c.fresh("hv.M", compSorts["M"]))
 	}
